@@ -519,6 +519,7 @@ func main() {
 		exec     bool
 		dev      int
 		r1       []pg.Class
+		pairwise bool
 	}
 	var items []item
 	var groups [][]item
@@ -532,22 +533,41 @@ func main() {
 		var g []item
 		for i := 0; i < n; i++ {
 			s := shapes[(i*stride)%n]
-			g = append(g, item{s, false, false, dev, r1}, item{s, true, false, dev, r1})
+			g = append(g, item{s, false, false, dev, r1, false}, item{s, true, false, dev, r1, false})
+		}
+		groups = append(groups, g)
+	}
+	addPairwise := func(shapes []pg.Shape) {
+		var g []item
+		for _, s := range shapes {
+			g = append(g, item{s, false, false, 0, nil, true}, item{s, true, false, 0, nil, true})
 		}
 		groups = append(groups, g)
 	}
 	both := []int{pg.ModelT, pg.ModelS}
 	all, core := pg.OpsFor(false, false), pg.OpsFor(true, false)
 	var plan string
-	// executed slice first (it is the smallest): every program with <=1 call, every finisher
-	for _, s := range pg.Shapes(both, pg.Seqs(pg.OpsFor(false, true), 0, 1), pg.FinsFor(false, false)) {
-		items = append(items, item{s, false, true, 1, nil})
-	}
+	onlyT, onlyS := []int{pg.ModelT}, []int{pg.ModelS}
+	fins := pg.FinsFor(false, false)
 	if !thorough {
-		addDry(pg.Shapes(both, pg.Seqs(all, 0, 1), pg.FinsFor(false, false)), 1, nil)
-		addDry(pg.Shapes([]int{pg.ModelT}, pg.Seqs(all, 2, 2), pg.FinsFor(true, false)), 1, pg.PathClasses)
-		plan = fmt.Sprintf("<=1 call over %d calls x %d finishers x 2 models, 2 calls x %d representative finishers x model T; <=1 slot deviating from its default class (over all classes for <=1 call, over %d path classes for 2 calls)", len(all), len(pg.FinsFor(false, false)), len(pg.FinsFor(true, false)), len(pg.PathClasses))
+		// quick: a closed, load-independent slice.
+		// executed slice: every program with <=1 call, every finisher
+		for _, s := range pg.Shapes(onlyT, pg.Seqs(pg.OpsFor(false, true), 0, 1), fins) {
+			items = append(items, item{s, false, true, 1, pg.PathClasses, false})
+		}
+		for _, s := range pg.Shapes(onlyS, pg.Seqs(pg.OpsFor(false, true), 0, 1), fins) {
+			items = append(items, item{s, false, true, 0, nil, false})
+		}
+		addDry(pg.Shapes(onlyT, pg.Seqs(all, 0, 1), fins), 1, nil)
+		addDry(pg.Shapes(onlyS, pg.Seqs(all, 0, 1), fins), 0, nil)
+		// 2 calls: pairwise — every ordered pair of calls with 3 finishers and a
+		// model chosen cyclically, default classes plus one deviating slot per call
+		addPairwise(pg.CyclicShapes(both, pg.Seqs(all, 2, 2), fins, 3))
+		plan = fmt.Sprintf("quick = <=1 call over %d calls x %d finishers x {model T with <=1 slot deviating from its default class over all classes, model S with default classes} x 2 dialects; every ordered pair of calls (2-call programs) x 3 finishers and a model chosen cyclically (pairwise cover of call x call, call x finisher) with the default classes and, per call, one deviating slot whose (slot, class) cycles over the partner calls (pairwise cover of slot x class x position) x 2 dialects; executed slice = every program with <=1 call on SQLite behind the recording driver (model T with <=1 slot deviating over %d path classes, model S default)", len(all), len(fins), len(pg.PathClasses))
 	} else {
+		for _, s := range pg.Shapes(both, pg.Seqs(pg.OpsFor(false, true), 0, 1), fins) {
+			items = append(items, item{s, false, true, 1, nil, false})
+		}
 		addDry(pg.Shapes(both, pg.Seqs(all, 0, 1), pg.FinsFor(false, false)), 2, nil)
 		addDry(pg.Shapes(both, pg.Seqs(all, 2, 2), pg.FinsFor(false, false)), 1, nil)
 		addDry(pg.Shapes([]int{pg.ModelT}, pg.Seqs(core, 3, 3), pg.FinsFor(true, false)), 1, nil)
@@ -595,10 +615,15 @@ func main() {
 					break
 				}
 				it := items[n]
-				it.shape.ClassVectors(it.dev, it.r1, pg.PathClasses, func(classes []int) {
+				visit := func(classes []int) {
 					c := Case{Numbered: it.numbered, Exec: it.exec}
 					check(run, w, it.shape.Prog(classes), c, st, samples, outcomes, false)
-				})
+				}
+				if it.pairwise {
+					it.shape.PairwiseVectors(0, nil, visit)
+				} else {
+					it.shape.ClassVectors(it.dev, it.r1, pg.PathClasses, visit)
+				}
 				atomic.AddInt64(&shapesDone, 1)
 			}
 			mu.Lock()
@@ -634,7 +659,7 @@ func main() {
 	run.Finish(map[string]interface{}{
 		"evaluations":                       st.evals,
 		"distinct_nontrivial":               skeletons.Len(),
-		"rule":                              "programs = clause-call sequences x finishers x models x {?, $n} placeholder dialects, every argument slot ranging over its admissible value classes: " + plan + fmt.Sprintf("; plus every program with <=1 call executed on SQLite behind the recording driver (<=1 deviating slot); %d value classes; non-trivial = distinct SQL skeletons (text with literals removed, placeholders kept) on which the three oracle parts were evaluated", int(pg.NumClasses)),
+		"rule":                              "programs = clause-call sequences x finishers x models x {?, $n} placeholder dialects, every argument slot ranging over its admissible value classes: " + plan + fmt.Sprintf("; thorough additionally executes every program with <=1 call on SQLite (<=1 deviating slot, all classes); %d value classes; non-trivial = distinct SQL skeletons (text with literals removed, placeholders kept) on which the three oracle parts were evaluated", int(pg.NumClasses)),
 		"samples":                           samples.List(),
 		"exhaustive":                        exhaustive,
 		"shapes_total":                      len(items),
